@@ -10,7 +10,8 @@
       `) else (` or `) else if … (` are skipped (`skipBlock` counts nested blocks); `) else if` then tests its own condition;
     * a `)` that is reached by running into it ends its block: next line; a `) else …` that is reached by running into it
       means that the branch in front of it ran to its end: the rest of the chain is skipped up to its final `)`;
-    * labels are no-ops; the end of the list is the end of the program; the last line `endlocal & exit /B %_e%` ends the
+    * labels are no-ops; the raw lines of the start code and the remarks are no-ops; `goto :L` for another label (the jump
+      over a helper routine) is a jump like the construct jumps; the end of the list is the end of the program; the last line `endlocal & exit /B %_e%` ends the
       script with the exit code that `_e` holds.
 
   `LRun whole` is the big-step relation "from these remaining lines and this configuration the script ends like this";
@@ -48,6 +49,13 @@ def blockTest (ρ : Store) (t : String) : Option Bool :=
       | some c => guardB ρ c
       | none => none
 
+/-- raw lines that do nothing the model looks at: the first lines of every script (`@echo off`, the two `setlocal`), the three
+    lines that define `LF` (the value of `LF` is not modelled: the strings of the fragment contain no line break) and the
+    `:: ...` remarks around the helper routines -/
+def nopRaw (t : String) : Bool :=
+  t == "@echo off" || t == "setlocal EnableDelayedExpansion" || t == "setlocal" || t == "(set LF=^" || t == "" || t == ")" ||
+    [':', ':', ' '].isPrefixOf t.toList
+
 /-- the script `whole`, from the remaining lines `rest` and configuration `c`, ends with outcome `o` in `c'` -/
 inductive LRun (whole : List BLine) : List BLine → Cfg → Out → Cfg → Prop
   | done {c} : LRun whole [] c .normal c
@@ -68,6 +76,11 @@ inductive LRun (whole : List BLine) : List BLine → Cfg → Out → Cfg → Pro
   /-- the last line of every script: the exit code is the value of `_e` (`%_e%` is expanded when the line is read, which is
       when it is reached: the line stands in no block) -/
   | finish {rest c k} : asCode (c.ρ "_e") = some k → LRun whole (.raw "endlocal & exit /B %_e%" :: rest) c (.exit k) c
+  /-- a raw line of the start code or a remark: next line -/
+  | nop {t rest c o c'} : nopRaw t = true → LRun whole rest c o c' → LRun whole (.raw t :: rest) c o c'
+  /-- `goto :L` for a label that is not a construct label (the jump over a helper routine): as `jump`; `goto :end` is a
+      line of `stepB` (it ends the script with the code in `_e`) -/
+  | gotoL {n rest tgt c o c'} : n ≠ "end" → afterLabel n whole = some tgt → LRun whole tgt c o c' → LRun whole (.goto n :: rest) c o c'
 
 /-! ### executable side: an interpreter for the line-level semantics
 
@@ -94,17 +107,31 @@ def lrun (whole : List BLine) : Nat → List BLine → Cfg → Option (Out × Cf
           | some (.elseIfOpen t' :: r') => lrun whole f (.opn t' :: r') c
           | _ => none
       | none => none
+  | f + 1, .raw t :: rest, c =>
+      if nopRaw t then lrun whole f rest c else
+      if t == "endlocal & exit /B %_e%" then (asCode (c.ρ "_e")).map (fun k => (.exit k, c)) else
+      match stepB (.raw t) c with
+      | some (.normal, c1) => lrun whole f rest c1
+      | some (.exit k, c') => some (.exit k, c')
+      | _ => none
+  | f + 1, .goto n :: rest, c =>
+      if n == "end" then
+        match stepB (.goto n) c with
+        | some (.exit k, c') => some (.exit k, c')
+        | _ => none
+      else
+        match afterLabel n whole with
+        | some tgt => lrun whole f tgt c
+        | none => none
   | f + 1, l :: rest, c =>
-      if l == .raw "endlocal & exit /B %_e%" then (asCode (c.ρ "_e")).map (fun k => (.exit k, c)) else
       match stepB l c with
       | some (.normal, c1) => lrun whole f rest c1
       | some (.exit k, c') => some (.exit k, c')
       | _ => none
 
-/-- the lines from the first line of the program on (behind the start code and the helper routines), run in the whole script -/
+/-- the whole script from its first line, from the empty store: start code, the jumps over the helper routines, the program, the end lines -/
 def runLines (fuel : Nat) (ls : List BLine) : Option (Out × List String) :=
-  let main := programLines ls ++ [.label "end", .raw "endlocal & exit /B %_e%"]
-  match lrun ls fuel main ⟨Store.set (fun _ => "") "_e" "0", []⟩ with
+  match lrun ls fuel ls ⟨fun _ => "", []⟩ with
   | some (o, c) => some (o, c.out)
   | none => none
 
